@@ -7,6 +7,13 @@ GT = "./internal/mysql/gtids"
 OPT = "./internal/app/optimization"
 
 REGISTRY = {
+    "C16": dict(
+        level="exploration", death_is_violation=True,
+        units=[dict(pkg=APP, test="TestVerifC16Resolve", quick=40000, thorough=2000000, shards_quick=8, shards_thorough=16, flight=True),
+               dict(pkg=APP, test="TestVerifC16Counts", quick=20000, thorough=400000, shards_quick=4, shards_thorough=8),
+               dict(pkg=APP, test="TestVerifC16Move", quick=3200, thorough=200000, shards_quick=16, shards_thorough=16),
+               dict(pkg=APP, test="TestVerifC16Sim", quick=800, thorough=30000, shards_quick=16, shards_thorough=16)],
+    ),
     "C19": dict(
         level="exploration",
         units=[dict(pkg=OPT, test="TestVerifC19", quick=20000, thorough=500000, shards_quick=8, shards_thorough=16),
